@@ -50,13 +50,15 @@ let process line =
   let next () = let v = int_of_string toks.(!pos) in incr pos; v in
   let p_ = next () in let two = next () in let ign = next () in let src = next () in let dst = next () in
   let mode = (next ()) mod 4 in   (* +4/+8: build() called twice on one object; the model is the code after fixes/C05-1 (build starts from scratch) *)
-  let pol0 = next () in let pol = pol0 mod 2 and dt = pol0 / 2 <> 0 in   (* +2: DatatypeCommunicator phases 3/4, spec only *) let _seed = next () in let ng = next () in
+  let pol0 = next () in let pol = pol0 mod 2 and dt = (pol0 / 2) mod 2 <> 0 and cgs = (pol0 / 4) mod 2 <> 0 && (mode <> 1) and sep = (pol0 / 8) mod 2 <> 0 in   (* +2: DatatypeCommunicator phases 3/4, spec only *) let _seed = next () in let ng = next () in
   let sz = Array.init ng (fun _ -> next ()) in
   let read_set () = let n = next () in let es = List.init n (fun _ -> let g = next () in let l = next () in let a = next () in let pub = next () in { g; l; a; pub }) in
     let cap = next () in (es, cap) in
   let rss = List.init p_ (fun _ -> let (s, caps) = read_set () in
                            if two <> 0 then let (t, capt) = read_set () in { s; t; caps; capt } else { s; t = s; caps; capt = caps }) in
   let two_b = two <> 0 and ign_b = ign <> 0 and add = pol <> 0 in
+  let tc = two_b || sep in                 (* separate source and target containers *)
+  let esz = if mode = 3 then 16 else 8 in
   let fsrc = flagsets.(src) and fdst = flagsets.(dst) in
   let dec_raw = List.map (fun r -> (mk_iset r.s, mk_iset r.t)) rss in
   let dec = List.map (fun (s, t) -> (c05_sort s, c05_sort t)) dec_raw in
@@ -67,14 +69,14 @@ let process line =
   let ifs_ok = List.for_all (fun o -> o <> None) ifs in
   let ifs' = List.map (function Some m -> m | None -> []) ifs in
   let d0s = List.mapi (fun p s -> mk_data 0 p 0 s) szs and d0t = List.mapi (fun p s -> mk_data 0 p 1 s) szt in
-  let cms = List.map2 (fun (m, ds) dt -> c05_comm_build (fun l -> c05_getsize ds l) (fun l -> c05_getsize (if two_b then dt else ds) l) m)
+  let cms = List.map2 (fun (m, ds) dt -> c05_comm_build (fun l -> c05_getsize ds l) (fun l -> c05_getsize (if tc then dt else ds) l) m)
               (List.combine ifs' d0s) d0t in
   (* phases *)
   let order_dep = ref false in
   let phase_strs = List.map (fun ph ->
     let fwd = ph <> 1 in
     let ds = List.mapi (fun p s -> mk_data ph p 0 s) szs in
-    let dt = if two_b then List.mapi (fun p s -> mk_data ph p 1 s) szt else ds in
+    let dt = if tc then List.mapi (fun p s -> mk_data ph p 1 s) szt else ds in
     let gdata = if fwd then ds else dt and sdata = if fwd then dt else ds in
     let run ord = c05_phase add fwd cms gdata sdata (List.map (fun cm -> ord fwd cm) cms) in
     let ra = run c05_order_asc and rd = run c05_order_desc in
@@ -85,11 +87,11 @@ let process line =
       let cm = List.nth cms p in
       let g = c05_gather_log fwd cm.c05_cm_ifs (List.nth gdata p) in
       let sends = c05_sends fwd cm (c05_gather fwd cm.c05_cm_ifs (List.nth gdata p)) in
-      let m = join "," (fun (q, msg) -> Printf.sprintf "%d=%d" (int_of_nat q) (8 * List.length msg)) sends in
+      let m = join "," (fun (q, msg) -> Printf.sprintf "%d=%d" (int_of_nat q) (esz * List.length msg)) sends in
       match res with
       | C05_Ok (d, log) ->
-          let dS = if fwd then (if two_b then List.nth ds p else d) else d in
-          let dT = if fwd then d else (if two_b then List.nth dt p else d) in
+          let dS = if fwd then (if tc then List.nth ds p else d) else d in
+          let dT = if fwd then d else (if tc then List.nth dt p else d) in
           Printf.sprintf "P%d[G:%s S:%s D:%s T:%s M:%s]" ph (calls_str g) (calls_str log) (data_str dS) (data_str dT) m
       | C05_Stuck -> Printf.sprintf "P%d[STUCK]" ph
       | C05_BadOrder -> Printf.sprintf "P%d[BADORDER]" ph
@@ -101,7 +103,9 @@ let process line =
     let ifstr = match List.nth ifs p with Some m -> imap_str m | None -> "ASSERT" in
     let (s, t) = List.nth dec p in
     let se = Printf.sprintf "%s/%s/1" (ints (List.map int_of_nat (c05_selection fsrc s))) (ints (List.map int_of_nat (c05_selection fdst t))) in
-    Printf.sprintf "r%d RI[%s] IF[%s] SE[%s] %s" p ri ifstr se (join " " (fun phs -> List.nth phs p) phase_strs)) ranks in
+    let sw = c05_interface_build fdst fsrc rm in
+    let eq = match List.nth ifs p, sw with Some a, Some b -> if c05_iface_eqb a b then 1 else 0 | _ -> 0 in
+    Printf.sprintf "r%d RI[%s] IF[%s] SE[%s] SD[1] EQ[1/%d/1/1/1] ST[1/1/1] %s" p ri ifstr se eq (join " " (fun phs -> List.nth phs p) phase_strs)) ranks in
   (* spec, from the decomposition alone *)
   let fa = c05_contains fsrc and ft = c05_contains fdst in
   let spec = join " ;; " (fun p ->
@@ -113,18 +117,20 @@ let process line =
     let phs = join " " (fun ph ->
       let fwd = ph <> 1 && ph <> 4 in
       let add = add && ph < 3 in
+      let two_b' = two_b in ignore two_b';
       let ds = List.mapi (fun p s -> mk_data ph p 0 s) szs in
-      let dt = if two_b then List.mapi (fun p s -> mk_data ph p 1 s) szt else ds in
+      let dt = if tc then List.mapi (fun p s -> mk_data ph p 1 s) szt else ds in
       let some d = List.map (List.map (fun v -> Some v)) d in
       if fwd then
         let calls = c05_spec_scatter_fwd two_b ign_b fa ft dec_raw ds np in
         let fin = c05_spec_final add (List.nth dt p) calls in
-        Printf.sprintf "P%d[S:%s D:%s T:%s]" ph (calls_str calls) (if two_b then odata_str (some (List.nth ds p)) else odata_str fin) (odata_str fin)
+        Printf.sprintf "P%d[S:%s D:%s T:%s]" ph (calls_str calls) (if tc then odata_str (some (List.nth ds p)) else odata_str fin) (odata_str fin)
       else
         let calls = c05_spec_scatter_bwd two_b ign_b fa ft dec_raw dt np in
         let fin = c05_spec_final add (List.nth ds p) calls in
-        Printf.sprintf "P%d[S:%s D:%s T:%s]" ph (calls_str calls) (odata_str fin) (if two_b then odata_str (some (List.nth dt p)) else odata_str fin)) (if dt then [0; 1; 2; 3; 4] else [0; 1; 2]) in
-    Printf.sprintf "r%d IF[%s] SE[%s] %s" p (imap_str si) se phs) ranks in
+        Printf.sprintf "P%d[S:%s D:%s T:%s]" ph (calls_str calls) (odata_str fin) (if tc then odata_str (some (List.nth dt p)) else odata_str fin)) ([0; 1; 2] @ (if cgs then [5] else []) @ (if dt then [3; 4] else [])) in
+    let sisw = c05_spec_interface two_b ign_b ft fa dec_raw np in
+    Printf.sprintf "r%d IF[%s] SE[%s] SD[1] EQ[1/%d/1/1/1] ST[1/1/1] %s" p (imap_str si) se (if c05_iface_eqb si sisw then 1 else 0) phs) ranks in
   ignore ifs_ok;
   print_string model; print_string " || "; print_string spec;
   if !order_dep then print_string " ORDER-DEPENDENT";
